@@ -22,10 +22,14 @@ PAUSE_POINTS = ["hash.done.prefix", "hash.done.contents", "hashing.done", "repor
 
 
 def cfg_sample(r):
-    return {"hash_fn": r.choice(["metro", "blake3", "sha256", "xxhash"]), "kind": r.choice([None, "ssd", "hdd"]),
+    c = {"hash_fn": r.choice(["metro", "blake3", "sha256", "xxhash"]), "kind": r.choice([None, "ssd", "hdd"]),
             "max_prefix": r.choice([None, None, 100, 65536]), "max_suffix": r.choice([None, None, 100, 4096]),
             "transform": r.choice([None, None, None, "cat", "head100", "head5000", "tail50", "failodd"]), "threads": r.choice([None, ["1"], ["default:4,2"]]),
             "match_links": False, "rf": r.choice([None, None, ("over", 0)]), "min0": False, "cache": None}
+    if r.random() < 0.12:
+        # a program that rewrites its input file: the same command line, read with or without --in-place
+        c.update(transform="in_keep3000", in_place=r.random() < 0.5)
+    return c
 
 
 class Tree:
@@ -36,6 +40,9 @@ class Tree:
         self.r = r
         self.files = {}  # rel path -> (fam, len, flips)
         self.counter = 0
+        # one tree in seven is "ancient": its files carry modification times before 1970 (unpacked from an archive with
+        # bogus time stamps); restoring older copies then moves them further back, each to a time stamp of its own
+        self.ancient = r.random() < 0.15
         self.inode_reuse = 0
         os.makedirs(os.path.join(root, "r0", "sub"))
 
@@ -57,6 +64,9 @@ class Tree:
             os.utime(p, ns=(st.st_atime_ns, (prev[0] - backdate_ms) * 1_000_000))
         elif prev and (st.st_mtime_ns // 1_000_000, st.st_size) == prev:
             os.utime(p, ns=(st.st_atime_ns, st.st_mtime_ns + 1_000_000))
+        elif fresh and self.ancient:
+            self.counter += 1
+            os.utime(p, ns=(st.st_atime_ns, -(10 ** 9 + self.counter * 7919) * 1_000_000))
         self.files[rel] = spec
 
     def newname(self):
